@@ -631,8 +631,20 @@ def _is_selection_condition(facts, cond, gvars, boolpats):
         cb = facts.body(c0["closure"])
         if cb is not None:
             return _is_selection_condition(facts, facts.root(cb), gvars, boolpats)
+    indexed = set()
+    for x in walk(cond):
+        base_ = None
+        if x.get("k") == "Index":
+            base_ = x["e"]
+        elif x.get("k") == "Call" and x.get("args") and (callee(x) or "").rsplit("::", 1)[-1] in ("index", "index_mut", "get", "get_mut", "get_unchecked", "remove", "swap_remove", "pop", "next", "drain"):
+            base_ = x["args"][0]
+        if base_ is not None:
+            indexed |= {y["v"] for y in walk(base_) if y.get("k") in ("VarRef", "UpvarRef")}
     for x in walk(cond):
         if x.get("k") in ("VarRef", "UpvarRef") and (x["v"] in gvars or x["v"] in boolpats):
+            # a whole collection (the mask vector counted or searched as a whole) says nothing about ONE parameter; an element of it does
+            if (x.get("ty") or "").replace("&", "").replace("mut ", "").strip().startswith("alloc::vec::Vec<") and x["v"] not in boolpats and x["v"] not in indexed:
+                continue
             return True
         if x.get("k") == "Index" and "bool" in (strip(x["e"]).get("ty") or ""):
             return True
@@ -687,6 +699,7 @@ def _selection_records(facts, bodies, gvars):
     """local collections that are filled only for parameters with a gradient (pushes / extends that are gated by a gradient's presence or
     carry a value read from a gradient), and everything derived from them by lets"""
     sel = set()
+    maybe = set()
     PUSHES = ("alloc::vec::Vec::<T, A>::push", "core::iter::traits::collect::Extend::extend", "alloc::vec::Vec::<T, A>::extend_from_slice",
               "alloc::vec::Vec::<T, A>::insert", "alloc::collections::vec_deque::VecDeque::<T, A>::push_back")
     for nb in bodies:
@@ -717,12 +730,35 @@ def _selection_records(facts, bodies, gvars):
                 if fl:
                     pairs.append((fl[1], fl[0]))
                 for pat, init in pairs:
-                    if any(x.get("k") in ("VarRef", "UpvarRef") and x["v"] in sel for x in walk(init)):
+                    if any(x.get("k") in ("VarRef", "UpvarRef") and x["v"] in sel for x in _walk_outside_captures(init)):
                         for v, _, _, _ in F.pat_bindings(pat):
                             if v not in sel:
                                 sel.add(v)
                                 changed = True
+                    elif any(x.get("k") in ("VarRef", "UpvarRef") and (x["v"] in sel or x["v"] in maybe) for x in walk(init)):
+                        # only a closure of the chain looks at the selected collection (a predicate comparing against it): what is drawn is
+                        # not an element of it, and whether the predicate singles out the selected parameters is not read
+                        for v, _, _, _ in F.pat_bindings(pat):
+                            if v not in sel and v not in maybe:
+                                maybe.add(v)
+                                changed = True
+    _selection_records.maybe = maybe - sel
     return sel
+
+
+def _walk_outside_captures(e):
+    st = [e]
+    while st:
+        x = st.pop()
+        if isinstance(x, dict):
+            yield x
+            for k_, v_ in x.items():
+                if k_ == "upvars" and x.get("k") == "Closure":
+                    continue
+                if isinstance(v_, (dict, list)):
+                    st.append(v_)
+        elif isinstance(x, list):
+            st.extend(x)
 
 
 def r42_writeback_gated(facts):
@@ -735,6 +771,7 @@ def r42_writeback_gated(facts):
         gvars = _gradient_derived_vars(facts, bodies)
         boolpats = _pattern_bools(facts, bodies)
         selvars = _selection_records(facts, bodies, gvars)
+        selmaybe = set(_selection_records.maybe)
         n_writes = 0
         for nb in bodies:
             for n, ctx in F.walk_ctx(facts.root(nb)):
@@ -772,6 +809,9 @@ def r42_writeback_gated(facts):
                             gate = "the parameter is addressed by a position taken from a collection filled only for parameters with a gradient"
                 if gate:
                     c.ok(inst, where, "the parameter is overwritten only where it was selected (%s)" % gate)
+                elif tv in selmaybe or any(x.get("k") in ("VarRef", "UpvarRef") and x["v"] in selmaybe for cnd in conds for x in walk(cnd)) \
+                        or any(sc is not None and any(x.get("k") in ("VarRef", "UpvarRef") and x["v"] in selmaybe for x in walk(sc)) for sc, _ in F.some_bindings_on_path(ctx)):
+                    c.unk(inst, where, "the overwritten parameter is found by a predicate that compares against the selected collection; whether it singles out exactly the parameters with a gradient is not read")
                 else:
                     c.bad(inst, where, "the parameter is overwritten whether or not it had a gradient: a frozen parameter (no gradient) is replaced by a fresh tracked array "
                                        "and starts training from the next iteration")
